@@ -2,5 +2,5 @@
 from corecheck import run_core
 def run(ctx):
     return run_core(ctx, "C11", driver={}, sim_cfg="SIM_pending", mc_quick="MC_pending", mc_thorough="MC_pending",
-                    need_stats=("Commit:ok", "ClearPending:ok", "ApplyPending:ok", "ApplyDetached:err", "CommitDetached:ok", "DeliverCommit:err:epoch", "Commit:err:pending-exists"),
-                    invariants_note="PendingOnCurrentEpoch, StepsByOne (action property), Agreement on MC_pending (commit / detached commit / clear / apply / own echo / foreign commit / DS choice for 3 racing members); concrete: full-state equality around commit construction (only the pending commit may change), has_pending_commit, stale detached commits must be rejected, own echo vs apply vs peers reach one state (agreement oracles)")
+                    need_stats=("Commit:ok", "ClearPending:ok", "ApplyPending:ok", "ApplyDetached:err", "ApplyDetached:ok", "ApplyPending:err:epoch", "CommitDetached:ok", "DeliverCommit:err:epoch", "Commit:err:pending-exists"),
+                    invariants_note="PendingOnCurrentEpoch, PendingAppliedOnItsBase (a pending commit that an applied detached commit has overtaken stays, stale and inert), StepsByOne (action property), Agreement on MC_pending (commit / detached commit / clear / apply / own echo / foreign commit / DS choice for 3 racing members); concrete: full-state equality around commit construction (only the pending commit may change), has_pending_commit, stale detached commits must be rejected, own echo vs apply vs peers reach one state (agreement oracles)")
